@@ -60,9 +60,9 @@ def gen_knobs(rng):
     "styles": styles, "captions": rng.randint(1, 12), "switch": rng.choice([0.0, 0.2, 0.5]), "enm": rng.choice([0.0, 0.5, 1.0]),
     "df": df, "start": start,
     "chan": {"double": rng.random() < 0.7, "null": rng.choice([0.0, 0.0, 0.1, 0.3]), "ch2": rng.choice([0.0, 0.0, 0.1, 0.3]),
-             "parity_off": rng.choice([0.0, 0.0, 0.5, 1.0]), "line_len": rng.choice([6, 12, 20, 40, 1000])},
+             "parity_off": rng.choice([0.0, 0.0, 0.5, 1.0]), "line_len": rng.choice([6, 12, 20, 40, 1000]), "split": rng.choice([0.0, 0.0, 0.5, 1.0])},
     "chan2": {"double": rng.random() < 0.5, "null": rng.choice([0.0, 0.2]), "ch2": rng.choice([0.0, 0.2]), "parity_off": rng.choice([0.0, 1.0]),
-              "line_len": rng.choice([8, 30, 1000])},
+              "line_len": rng.choice([8, 30, 1000]), "split": rng.choice([0.0, 1.0])},
     "text_align": rng.choice([None, "auto", "left", "center", "right"]),
   }
 
